@@ -317,6 +317,28 @@ def run(ctx, R, tier):
     for o in R10_.obs:
         if o.key in ("C10-R1|get_next_stream_item|removal-cannot-raise", "C10-R1|get_next_stream_item|handler-reraises"):
             R.add("C07-R6", "stream|" + o.key.split("|", 2)[2], o.desc + " (a KeyError from the bookkeeping would replace the generator's own exception / StopIteration at the caller)", o.ok, o.loc, o.detail)
+    # the traceback text that travels with the exception is built by errors.format_traceback INSIDE the error path of handleRequest: whatever it does with the exception
+    # value that can run user code (str() / %-formatting calls the exception's __str__) happens under its own catch-all - an exception whose __str__ fails must cost
+    # the detailed traceback, not the whole error reply (the caller would see ConnectionClosedError instead of the remote exception)
+    ft = ctx.fn("Pyro5.errors.format_traceback")
+    exv = [p_ for p_ in ft.params if "value" in p_]
+    if not exv:
+        raise AnalysisError("format_traceback: the exception-value parameter vanished")
+    risky = []
+    for n in walk_no_nested(ft.node):
+        mentions = any(isinstance(x, ast.Name) and x.id in exv for x in ast.walk(n))
+        if not mentions:
+            continue
+        if (isinstance(n, ast.BinOp) and isinstance(n.op, ast.Mod)) or isinstance(n, ast.JoinedStr) or \
+                (isinstance(n, ast.Call) and ((isinstance(n.func, ast.Name) and n.func.id in ("str", "repr", "format")) or (isinstance(n.func, ast.Attribute) and n.func.attr == "format"))):
+            risky.append(n)
+    if not risky:
+        raise AnalysisError("format_traceback: no text is built from the exception value any more")
+    bare = [n for n in risky if not any(part == "body" and any(handler_is_catch_all(h) for h in t.handlers) for t, part in enclosing_trys(n, ft.node))]
+    R.check(not bare, "C07-R3", "format_traceback|exception-text-built-under-its-own-catch-all", "every str()/%%-formatting of the exception value in format_traceback lies in the try with the catch-all fallback (%d site(s))" % len(risky),
+            ft.loc(bare[0]) if bare else ft.loc(),
+            "`%s` formats the exception value outside the try that falls back to the plain traceback: an exception whose __str__ raises makes format_traceback raise inside "
+            "handleRequest's error path - no error reply is sent, the caller gets ConnectionClosedError instead of the remote exception" % (unparse(bare[0], 70) if bare else ""))
     # every error reply is encoded by a call of the library's stateless module-level encoder (shared with C01-R2): the serializer objects are process-wide singletons used by
     # all server threads, and an exception is encoded through the `default=` hook - Python code in the middle of the encoding where threads switch. One encoder object
     # (msgpack.Packer, json.JSONEncoder with state) kept on the serializer splices two overlapping replies into each other: both callers get garbage instead of their exception
